@@ -15,6 +15,14 @@ quals = [q for q in sys.argv[1:] if not q.startswith("-")]
 verbose = "-v" in sys.argv
 if not quals: quals = [q for q in REGISTRY if not q.startswith("callback.")]
 tot = bad = 0
+for q in [x for x in quals if x.startswith("@")]:
+    from contracts import dbfiles
+    for r in getattr(dbfiles, q[1:])():
+        tot += 1
+        if r["status"] != "discharged":
+            bad += 1
+            print("    [failed] %s (%s)" % (r["name"], r["detail"][:200]))
+quals = [x for x in quals if not x.startswith("@")]
 for q in quals:
     ex = Exec(src, q)
     t = time.time()
